@@ -240,12 +240,16 @@ func closedWord(m *ModuleInstance) uint64 { return m.Closed.Load() }
 //@   ensures r0 == (closedWord(m) != 0)
 //@   modifies nothing
 
+// (C09: the frame clause is what keeps a closed exporter's tables, globals, memory and passive
+// segments intact for the instances that imported from it.)
+//@ prop C10 C09
 //@ func (m *ModuleInstance) ensureResourcesClosed(ctx context.Context) (err error)
 //@   ensures[notified-once] closeNotified() == old(closeNotified()) + b2i(old(m.CloseNotifier != nil))
 //@   ensures[released] m.CloseNotifier == nil && m.Sys == nil && m.CodeCloser == nil
 //@   ensures[closed-word-kept] closedWord(m) == old(closedWord(m))
 //@   modifies m.CloseNotifier, m.Sys, m.CodeCloser, m.MemoryInstance.expBuffer, obj(internalsys.VerifOpenedFiles(m.Sys.FS())), ghost("closeNotified")
 
+//@ prop C10
 //@ func (m *ModuleInstance) CloseWithExitCode(ctx context.Context, exitCode uint32) (err error)
 //@   requires m.s != nil && regInv(m.s)
 //@   ensures[closed-afterwards] closedWord(m) != 0
@@ -269,3 +273,70 @@ func closedWord(m *ModuleInstance) uint64 { return m.Closed.Load() }
 //@   ensures[error-iff-closed] (err != nil) == (old(closedWord(m)) != 0)
 //@   ensures[notifies-at-most-once] closeNotified() == old(closeNotified()) || (closeNotified() == old(closeNotified())+1 && old(m.CloseNotifier != nil))
 //@   ensures[deferred-close-completes] old(closedWord(m)) != 0 && old(closedWord(m))&exitCodeFlagMask == exitCodeFlagResourceNotClosed ==> m.CloseNotifier == nil
+
+
+// ---- C11 / C04: what an instance owns is allocated by its own instantiation; what it imports is shared.
+//@ prop C11 C04
+
+// Engine and allocator interfaces (assumed): they do not write ModuleInstance state.
+//@ iface (me ModuleEngine) OwnsGlobals() bool
+//@   modifies nothing
+//@ iface (me ModuleEngine) FunctionInstanceReference(funcIndex Index) Reference
+//@   modifies nothing
+//@ iface (a experimental.MemoryAllocator) Allocate(cap, max uint64) experimental.LinearMemory
+//@   modifies nothing
+//@ iface (l experimental.LinearMemory) Reallocate(size uint64) []byte
+//@   modifies nothing
+
+// ASSUMED frame: the ref.func resolver handed to initialize does not write instance state.
+//@ func (g *GlobalInstance) initialize(importedGlobals []*GlobalInstance, expr *ConstantExpression, funcRefResolver func(funcIndex Index) Reference)
+//@   trusted
+//@   modifies g.Val, g.ValHi
+
+// New instance state is freshly allocated: nothing mutable is shared with the compiled module or with
+// another instance of it. (data.drop / elem.drop overwrite entries of these per-instance tables.)
+//@ func (m *ModuleInstance) applyData(data []DataSegment) error
+//@   ensures[own-data-table] verif_fresh_slice(m.DataInstances) && len(m.DataInstances) == len(data)
+//@   nosafety
+
+//@ func (m *ModuleInstance) buildElementInstances(elements []ElementSegment)
+//@   ensures[own-element-table] verif_fresh_slice(m.ElementInstances) && len(m.ElementInstances) == len(elements)
+//@   nosafety
+
+//@ func NewMemoryInstance(memSec *Memory, allocator experimental.MemoryAllocator, moduleEngine ModuleEngine) *MemoryInstance
+//@   requires memSec != nil
+//@   ensures[fresh] verif_fresh(r0)
+//@   ensures[own-buffer] allocator == nil ==> verif_fresh_slice(r0.Buffer)
+//@   ensures[limits] r0.Min == memSec.Min && r0.Max == memSec.Max && r0.Shared == memSec.IsShared
+//@   modifies nothing
+//@   nosafety
+
+// A defined memory is a new object; without one the (imported) memory is left as linked.
+//@ func (m *ModuleInstance) buildMemory(module *Module, allocator experimental.MemoryAllocator)
+//@   requires module != nil
+//@   ensures[own-memory] module.MemorySection != nil ==> verif_fresh(m.MemoryInstance)
+//@   ensures[imported-memory-kept] old(module.MemorySection == nil) ==> m.MemoryInstance == old(m.MemoryInstance)
+//@   nosafety
+
+// Defined globals are new objects placed after the imported ones, which stay the exporter's objects.
+//@ func (m *ModuleInstance) buildGlobals(module *Module, funcRefResolver func(funcIndex Index) Reference)
+//@   requires module != nil && len(m.Globals) == int(module.ImportGlobalCount)+len(module.GlobalSection) && len(module.GlobalSection) < 1<<31 && int(module.ImportGlobalCount)+len(module.GlobalSection) < 1<<32
+//@   ensures[own-globals] forall k Index :: k < Index(len(module.GlobalSection)) ==> verif_fresh(m.Globals[k+module.ImportGlobalCount])
+//@   ensures[imported-globals-kept] forall k Index :: k < module.ImportGlobalCount ==> m.Globals[k] == old[*GlobalInstance](m.Globals[k])
+//@   nosafety
+//@   loop 0 (i Index)
+//@     invariant forall k Index :: k < i ==> verif_fresh(m.Globals[k+module.ImportGlobalCount])
+//@     invariant forall k Index :: k < module.ImportGlobalCount ==> m.Globals[k] == old[*GlobalInstance](m.Globals[k])
+//@     invariant len(m.Globals) == int(module.ImportGlobalCount)+len(module.GlobalSection)
+
+// Defined tables are new objects placed after the imported ones, which stay the exporter's objects.
+//@ func (m *ModuleInstance) buildTables(module *Module, skipBoundCheck bool) (err error)
+//@   requires module != nil && len(m.Tables) == int(module.ImportTableCount)+len(module.TableSection) && len(module.TableSection) < 1<<31 && int(module.ImportTableCount)+len(module.TableSection) < 1<<32
+//@   ensures[own-tables] forall k Index :: k < Index(len(module.TableSection)) ==> verif_fresh(m.Tables[k+module.ImportTableCount])
+//@   ensures[imported-tables-kept] forall k Index :: k < module.ImportTableCount ==> m.Tables[k] == old[*TableInstance](m.Tables[k])
+//@   nosafety
+//@   loop 0 (idx Index, rangeindex int)
+//@     invariant rangeindex >= -1 && rangeindex < len(module.TableSection) && idx == module.ImportTableCount + Index(rangeindex+1)
+//@     invariant forall k Index :: k < Index(rangeindex+1) ==> verif_fresh(m.Tables[k+module.ImportTableCount])
+//@     invariant forall k Index :: k < module.ImportTableCount ==> m.Tables[k] == old[*TableInstance](m.Tables[k])
+//@     invariant len(m.Tables) == int(module.ImportTableCount)+len(module.TableSection)
